@@ -12,15 +12,17 @@ variable {P : Tmpl → Prop}
   (hnode : ∀ l kids, (∀ k ∈ kids, P k) → P (.node l kids))
   (hchoice : ∀ tag one k cands ds so, (∀ c ∈ cands, P c) → P (.choice tag one k cands ds so))
   (hfloat : ∀ tag lo hi, P (.floatv tag lo hi))
+  (hcustom : ∀ tag cid, P (.custom tag cid))
 
 set_option linter.unusedSectionVars false in
-include hconst hnode hchoice hfloat in
+include hconst hnode hchoice hfloat hcustom in
 mutual
   theorem Tmpl.ind_t : (t : Tmpl) → P t
     | .const a => hconst a
     | .node l kids => hnode l kids (Tmpl.ind_l kids)
     | .choice tag one k cands ds so => hchoice tag one k cands ds so (Tmpl.ind_l cands)
     | .floatv tag lo hi => hfloat tag lo hi
+    | .custom tag cid => hcustom tag cid
   theorem Tmpl.ind_l : (ts : List Tmpl) → ∀ k ∈ ts, P k
     | [] => fun _ h => by cases h
     | t :: ts => fun k h => by
@@ -31,7 +33,7 @@ end
 end Induct
 
 section
-variable (W : Nat → Bool)
+variable (W : Cfg)
 
 /-! ### The list helpers of the mutual blocks are maps -/
 
@@ -50,7 +52,7 @@ theorem candSpecs_eq (cs : List Tmpl) : candSpecs W cs = cs.map (dnaSpec W) := b
   | nil => simp [candSpecs]
   | cons c cs ih => simp only [candSpecs, List.map_cons, ih]; rfl
 
-theorem candV_eq (gs : List GSpec) : candV gs = gs.map (fun g => (g.isConstSpace, validG g)) := by
+theorem candV_eq (gs : List GSpec) : candV W.dom gs = gs.map (fun g => (g.isConstSpace, validG W.dom g)) := by
   induction gs with
   | nil => simp [candV]
   | cons c cs ih => simp only [candV, List.map_cons, ih]
@@ -159,20 +161,20 @@ theorem norm_split (n : Nat) (d : DNA) (ds : List DNA) (hs : splitDna n d = some
 
 /-! ### Validity of a list of decision points -/
 
-theorem validL_nil (ds : List DNA) (h : validL [] ds = true) : ds = [] := by
+theorem validL_nil (ds : List DNA) (h : validL W.dom [] ds = true) : ds = [] := by
   cases ds with
   | nil => rfl
   | cons d ds => simp [validL] at h
 
-theorem validL_single (g : GSpec) (ds : List DNA) (h : validL [g] ds = true) :
-    ∃ d, ds = [d] ∧ validG g d = true := by
+theorem validL_single (g : GSpec) (ds : List DNA) (h : validL W.dom [g] ds = true) :
+    ∃ d, ds = [d] ∧ validG W.dom g d = true := by
   match ds, h with
   | [], h => simp [validL] at h
   | [d], h => simp [validL] at h; exact ⟨d, rfl, h⟩
   | d :: d' :: ds, h => simp [validL] at h
 
-theorem validL_append (a b : List GSpec) (ds : List DNA) (h : validL (a ++ b) ds = true) :
-    ∃ d1 d2, ds = d1 ++ d2 ∧ validL a d1 = true ∧ validL b d2 = true := by
+theorem validL_append (a b : List GSpec) (ds : List DNA) (h : validL W.dom (a ++ b) ds = true) :
+    ∃ d1 d2, ds = d1 ++ d2 ∧ validL W.dom a d1 = true ∧ validL W.dom b d2 = true := by
   induction a generalizing ds with
   | nil => exact ⟨[], ds, rfl, by simp [validL], h⟩
   | cons g gs ih =>
@@ -221,18 +223,18 @@ theorem firstMatch_spec (cands : List Tmpl) (v : Tmpl) (i : Nat) (c : Tmpl) (d0 
 /-- Traversal level: the DNAs of the active placeholders of `t` are consumed exactly, and merging
 the result with the template gives them back. -/
 def StT (t : Tmpl) : Prop :=
-  ∀ ds rest, validL (specT W t) ds = true →
+  ∀ ds rest, validL W.dom (specT W t) ds = true →
     ∃ v, goT W t (ds ++ rest) = .ok (v, rest) ∧
       (wfT t = true → DistT W t → nfL ds = true → egoT W t v = .ok ds)
 
 def StL (ts : List Tmpl) : Prop :=
-  ∀ ds rest, validL (specL W ts) ds = true →
+  ∀ ds rest, validL W.dom (specL W ts) ds = true →
     ∃ vs, goL W ts (ds ++ rest) = .ok (vs, rest) ∧
       (wfL ts = true → DistL W ts → nfL ds = true → egoL W ts vs = .ok ds)
 
 /-- Template level (`ObjectTemplate.decode` / `.encode`). -/
 def StD (c : Tmpl) : Prop :=
-  ∀ d, validG (dnaSpec W c) d = true →
+  ∀ d, validG W.dom (dnaSpec W c) d = true →
     ∃ v, decode W c d = .ok v ∧
       (wfT c = true → DistT W c → nfD d = true → encode W c v = .ok d)
 
@@ -259,13 +261,13 @@ theorem StL_of_mem (ts : List Tmpl) (h : ∀ t ∈ ts, StT W t) : StL W ts := by
   | nil =>
     intro ds rest hv
     simp only [specL] at hv
-    have := validL_nil ds hv
+    have := validL_nil W ds hv
     subst this
     exact ⟨[], by simp [goL], fun _ _ _ => by simp [egoL]⟩
   | cons t ts ih =>
     intro ds rest hv
     simp only [specL] at hv
-    obtain ⟨d1, d2, rfl, h1, h2⟩ := validL_append _ _ ds hv
+    obtain ⟨d1, d2, rfl, h1, h2⟩ := validL_append W _ _ ds hv
     obtain ⟨v, hgo, henc⟩ := h t (List.mem_cons_self ..) d1 (d2 ++ rest) h1
     obtain ⟨vs, hgoL, hencL⟩ := ih (fun t' ht' => h t' (List.mem_cons_of_mem _ ht')) d2 rest h2
     refine ⟨v :: vs, by simp [goL, List.append_assoc, hgo, hgoL], ?_⟩
@@ -281,7 +283,7 @@ def CandsDist (cands : List Tmpl) : Prop :=
     ∀ d v, decode W ci d = .ok v → ∀ d', encode W cj v ≠ .ok d'
 
 theorem sub_ok (cands : List Tmpl) (hIH : ∀ c ∈ cands, StD W c) (chk : Bool) (sd : DNA)
-    (hv : validSub (candV (candSpecs W cands)) chk sd = true) :
+    (hv : validSub (candV W.dom (candSpecs W cands)) chk sd = true) :
     ∃ v, decodeSub (candFns W cands) sd = .ok v ∧
       (wfL cands = true → DistL W cands → CandsDist W cands → nfD sd = true →
         ∃ i child, firstMatch (encFns W cands) v 0 = some (i, child) ∧
@@ -308,7 +310,7 @@ theorem sub_ok (cands : List Tmpl) (hIH : ∀ c ∈ cands, StD W c) (chk : Bool)
   | .mk (some (.flt x)) cs, hv => simp [validSub] at hv
 
 theorem subs_ok (cands : List Tmpl) (hIH : ∀ c ∈ cands, StD W c) (sds : List DNA)
-    (hv : sds.all (validSub (candV (candSpecs W cands)) false) = true) :
+    (hv : sds.all (validSub (candV W.dom (candSpecs W cands)) false) = true) :
     ∃ vs, decodeSubs (candFns W cands) sds = .ok vs ∧ vs.length = sds.length ∧
       (wfL cands = true → DistL W cands → CandsDist W cands → nfL sds = true →
         encodeItems (encFns W cands) vs = .ok sds) := by
@@ -329,7 +331,7 @@ theorem StT_choice_active (tag : Nat) (one : Bool) (k : Nat) (cands : List Tmpl)
     (hW : W tag = true) (hIH : ∀ c ∈ cands, StD W c) : StT W (.choice tag one k cands dst so) := by
   intro ds rest hv
   simp only [specT, hW, if_true] at hv
-  obtain ⟨d, rfl, hvd⟩ := validL_single _ ds hv
+  obtain ⟨d, rfl, hvd⟩ := validL_single W _ ds hv
   simp only [validG] at hvd
   by_cases hk : k = 1
   · -- single choice
@@ -384,12 +386,12 @@ theorem StT_choice_active (tag : Nat) (one : Bool) (k : Nat) (cands : List Tmpl)
             | c1 :: c2 :: rest, _ => simp [DNA.norm, DNA.splice]
           simp [egoT, hW, encodeChoice, hvlen, hlen, hcs, hnorm]
 
-theorem StT_all (t : Tmpl) : StT W t := by
+theorem StT_all (hL : HooksLawful W) (t : Tmpl) : StT W t := by
   induction t using Tmpl.ind_t with
   | hconst a =>
     intro ds rest hv
     simp only [specT] at hv
-    have := validL_nil ds hv
+    have := validL_nil W ds hv
     subst this
     exact ⟨.const a, by simp [goT], fun _ _ _ => by simp [egoT, Atom.pyEq_refl]⟩
   | hnode l kids ih =>
@@ -416,7 +418,7 @@ theorem StT_all (t : Tmpl) : StT W t := by
     intro ds rest hv
     by_cases hW : W tag = true
     · simp only [specT, hW, if_true] at hv
-      obtain ⟨d, rfl, hvd⟩ := validL_single _ ds hv
+      obtain ⟨d, rfl, hvd⟩ := validL_single W _ ds hv
       simp only [validG] at hvd
       split at hvd
       · rename_i x
@@ -425,11 +427,28 @@ theorem StT_all (t : Tmpl) : StT W t := by
         simp [egoT, hW, hvd]
       · cases hvd
     · simp only [specT, hW, Bool.false_eq_true, if_false] at hv
-      have := validL_nil ds hv
+      have := validL_nil W ds hv
       subst this
       exact ⟨.floatv tag lo hi, by simp [goT, hW], fun _ _ _ => by simp [egoT, hW]⟩
+  | hcustom tag cid =>
+    intro ds rest hv
+    by_cases hW : W tag = true
+    · simp only [specT, hW, if_true] at hv
+      obtain ⟨d, rfl, hvd⟩ := validL_single W _ ds hv
+      simp only [validG] at hvd
+      split at hvd
+      · rename_i g hval
+        obtain ⟨v, hdec, _, henc⟩ := hL cid d hvd
+        refine ⟨v, by simp [goT, hW, hval, hdec], ?_⟩
+        intro _ _ _
+        simp [egoT, hW, henc]
+      · cases hvd
+    · simp only [specT, hW, Bool.false_eq_true, if_false] at hv
+      have := validL_nil W ds hv
+      subst this
+      exact ⟨.custom tag cid, by simp [goT, hW], fun _ _ _ => by simp [egoT, hW]⟩
 
-theorem StD_all (t : Tmpl) : StD W t := StD_of_StT W t (StT_all W t)
+theorem StD_all (hL : HooksLawful W) (t : Tmpl) : StD W t := StD_of_StT W t (StT_all W hL t)
 
 
 /-! ### Every successful decode is placeholder-free (modulo filter) and has the template's shape -/
@@ -524,7 +543,31 @@ theorem decodeSubs_ds (cands : List Tmpl) (hIH : ∀ c ∈ cands, DsD W c) (hwf 
         have h2 := ih vs' hvs
         simp [detL, h1, h2]
 
-theorem DsT_all (t : Tmpl) : DsT W t := by
+theorem plain_det (v : Tmpl) : plainT v = true → detT W v = true := by
+  induction v using Tmpl.ind_t with
+  | hconst a => intro _; simp [detT]
+  | hnode l kids ih =>
+    intro h
+    simp only [plainT] at h
+    simp only [detT]
+    rw [detL_iff]
+    intro k hk
+    have : ∀ ks, plainL ks = true → ∀ k ∈ ks, plainT k = true := by
+      intro ks
+      induction ks with
+      | nil => intro _ k hk; cases hk
+      | cons a as iha =>
+        intro hp k hk
+        simp only [plainL, Bool.and_eq_true] at hp
+        rcases List.mem_cons.mp hk with rfl | hk'
+        · exact hp.1
+        · exact iha hp.2 k hk'
+    exact ih k hk (this kids h k hk)
+  | hchoice tag one k cands dst so _ => intro h; simp [plainT] at h
+  | hfloat tag lo hi => intro h; simp [plainT] at h
+  | hcustom tag cid => intro h; simp [plainT] at h
+
+theorem DsT_all (hP : HooksPlain W) (t : Tmpl) : DsT W t := by
   induction t using Tmpl.ind_t with
   | hconst a =>
     intro _ ds v rest hgo
@@ -611,8 +654,25 @@ theorem DsT_all (t : Tmpl) : DsT W t := by
     · simp only [goT, hW, Bool.false_eq_true, if_false, Except.ok.injEq, Prod.mk.injEq] at hgo
       obtain ⟨rfl, _⟩ := hgo
       simp [detT, shapeT, hW]
+  | hcustom tag cid =>
+    intro _ ds v rest hgo
+    by_cases hW : W tag = true
+    · simp only [goT, hW, if_true] at hgo
+      split at hgo
+      · cases hgo
+      · split at hgo
+        · split at hgo
+          · rename_i v' hdec
+            cases hgo
+            have hp := hP cid _ v hdec
+            exact ⟨plain_det W v hp, by simp [shapeT, hW, hp]⟩
+          · cases hgo
+        · cases hgo
+    · simp only [goT, hW, Bool.false_eq_true, if_false, Except.ok.injEq, Prod.mk.injEq] at hgo
+      obtain ⟨rfl, _⟩ := hgo
+      simp [detT, shapeT, hW]
 
-theorem DsD_all (t : Tmpl) : DsD W t := DsD_of_DsT W t (DsT_all W t)
+theorem DsD_all (hP : HooksPlain W) (t : Tmpl) : DsD W t := DsD_of_DsT W t (DsT_all W hP t)
 
 end
 
